@@ -113,6 +113,12 @@ func Gen(t *rapid.T) Set {
 				fmt.Fprintf(b, "{%% import \"lib%d.html\" for L%dM0 %%}", i, i)
 				calls = append(calls, fmt.Sprintf("{{ L%dM0(gi) }}", i))
 			}
+			if len(calls) > 0 && rapid.IntRange(0, 2).Draw(t, "macrovalue") == 0 {
+				// an imported macro used as a value
+				last := calls[len(calls)-1]
+				name := last[3:strings.Index(last, "(")]
+				calls = append(calls, fmt.Sprintf("{%% if true %%}{%% mv := %s %%}{{ mv(2) }}{%% end %%}", name))
+			}
 		}
 		return calls
 	}
